@@ -2464,6 +2464,540 @@ func dbFacts(repo string) {
 	footer("DbFacts", il, fl, nu, ir)
 }
 
+// ---------------------------------------------------------------- C03: benchfmt/internal/bytesconv, reader.go atof
+
+var two64 = new(big.Int).Lsh(big.NewInt(1), 64)
+
+// intOf evaluates an integer constant expression the way Go does on a 64-bit platform:
+// truncating division, shifts, `^` on unsigned conversions, math.Max* constants, named
+// constants from env. Conversions uint/uint64/byte reduce modulo 2^64.
+func intOf(e ast.Expr, env map[string]*big.Int, what string) *big.Int {
+	e = unparen(e)
+	std := map[string]string{"math.MaxUint64": "18446744073709551615", "math.MaxInt64": "9223372036854775807",
+		"math.MaxUint32": "4294967295", "math.MaxInt32": "2147483647"}
+	switch v := e.(type) {
+	case *ast.BasicLit:
+		if v.Kind == token.CHAR {
+			c, _, _, err := strconv.UnquoteChar(strings.Trim(v.Value, "'"), 0)
+			if err == nil {
+				return big.NewInt(int64(c))
+			}
+		}
+		if v.Kind == token.INT {
+			if n, ok := new(big.Int).SetString(strings.ReplaceAll(v.Value, "_", ""), 0); ok {
+				return n
+			}
+		}
+	case *ast.Ident:
+		if r, ok := env[v.Name]; ok {
+			return r
+		}
+	case *ast.SelectorExpr:
+		if r, ok := env[src(v)]; ok {
+			return r
+		}
+		if t, ok := std[src(v)]; ok {
+			n, _ := new(big.Int).SetString(t, 10)
+			return n
+		}
+	case *ast.CallExpr:
+		if id, ok := v.Fun.(*ast.Ident); ok && len(v.Args) == 1 {
+			x := intOf(v.Args[0], env, what)
+			switch id.Name {
+			case "uint", "uint64":
+				return new(big.Int).Mod(x, two64)
+			case "int", "int64":
+				return x
+			case "byte":
+				return new(big.Int).Mod(x, big.NewInt(256))
+			}
+		}
+	case *ast.UnaryExpr:
+		x := intOf(v.X, env, what)
+		switch v.Op {
+		case token.SUB:
+			return new(big.Int).Neg(x)
+		case token.ADD:
+			return x
+		case token.XOR: // only on unsigned 64-bit operands
+			if c, ok := unparen(v.X).(*ast.CallExpr); ok && (src(c.Fun) == "uint" || src(c.Fun) == "uint64") {
+				return new(big.Int).Sub(new(big.Int).Sub(two64, big.NewInt(1)), x)
+			}
+		}
+	case *ast.BinaryExpr:
+		x, y := intOf(v.X, env, what), intOf(v.Y, env, what)
+		unsigned := isUnsigned64(v)
+		wrap := func(r *big.Int) *big.Int {
+			if unsigned {
+				return r.Mod(r, two64)
+			}
+			return r
+		}
+		switch v.Op {
+		case token.ADD:
+			return wrap(new(big.Int).Add(x, y))
+		case token.SUB:
+			return wrap(new(big.Int).Sub(x, y))
+		case token.MUL:
+			return wrap(new(big.Int).Mul(x, y))
+		case token.QUO:
+			if y.Sign() != 0 {
+				return new(big.Int).Quo(x, y)
+			}
+		case token.SHL:
+			if y.IsInt64() && y.Int64() >= 0 && y.Int64() < 4096 {
+				return wrap(new(big.Int).Lsh(x, uint(y.Int64())))
+			}
+		case token.SHR:
+			if y.IsInt64() && y.Int64() >= 0 && y.Int64() < 4096 {
+				return new(big.Int).Rsh(x, uint(y.Int64()))
+			}
+		}
+	}
+	die("%s: cannot evaluate integer constant expression %s", what, src(e))
+	return nil
+}
+
+// isUnsigned64: the expression has an explicit uint/uint64 conversion as (left-most) operand,
+// so its arithmetic wraps modulo 2^64.
+func isUnsigned64(e ast.Expr) bool {
+	switch v := unparen(e).(type) {
+	case *ast.CallExpr:
+		return src(v.Fun) == "uint" || src(v.Fun) == "uint64"
+	case *ast.BinaryExpr:
+		if v.Op == token.SHL || v.Op == token.SHR {
+			return isUnsigned64(v.X)
+		}
+		return isUnsigned64(v.X) || isUnsigned64(v.Y)
+	case *ast.UnaryExpr:
+		return isUnsigned64(v.X)
+	}
+	return false
+}
+
+func leanInt(n *big.Int) string { return fmt.Sprintf("(%s : Int)", n.String()) }
+
+func natOf(e ast.Expr, env map[string]*big.Int, what string) string {
+	n := intOf(e, env, what)
+	if n.Sign() < 0 {
+		die("%s: %s is negative", what, src(e))
+	}
+	return n.String()
+}
+
+// assignedInt finds `name := <int expr>` / `name = <int expr>` (first, in source order) in body.
+func assignedExpr(body ast.Node, name string, tok token.Token) ast.Expr {
+	var out ast.Expr
+	ast.Inspect(body, func(n ast.Node) bool {
+		if out != nil {
+			return false
+		}
+		if as, ok := n.(*ast.AssignStmt); ok && len(as.Lhs) == 1 && len(as.Rhs) == 1 && isIdent(as.Lhs[0], name) && (tok == token.ILLEGAL || as.Tok == tok) {
+			out = as.Rhs[0]
+		}
+		return true
+	})
+	return out
+}
+
+func numFacts(repo string) {
+	af := parseFile(repo, "benchfmt/internal/bytesconv/atof.go")
+	df := parseFile(repo, "benchfmt/internal/bytesconv/decimal.go")
+	ifl := parseFile(repo, "benchfmt/internal/bytesconv/atoi.go")
+	rf := parseFile(repo, "benchfmt/reader.go")
+	sp := funcDecl(af, "special")
+	rd := funcDecl(af, "readFloat")
+	set := methodDecl(af, "decimal", "set")
+	fb := methodDecl(af, "decimal", "floatBits")
+	ex := funcDecl(af, "atof64exact")
+	a64 := funcDecl(af, "atof64")
+	pu := funcDecl(ifl, "ParseUint")
+	pi := funcDecl(ifl, "ParseInt")
+	at := funcDecl(ifl, "Atoi")
+	ratof := funcDecl(rf, "atof")
+	has := func(sub string) func(string) bool { return func(c string) bool { return strings.Contains(c, sub) } }
+	ienv := map[string]*big.Int{}
+
+	header("NumFacts", "benchfmt/internal/bytesconv/atof.go", "benchfmt/internal/bytesconv/decimal.go", "benchfmt/internal/bytesconv/atoi.go", "benchfmt/internal/bytesconv/ftoa.go", "benchfmt/reader.go")
+
+	// ---- platform constants (evaluated for a 64-bit platform)
+	ienv["intSize"] = intOf(varInit(ifl, "intSize"), ienv, "intSize")
+	ienv["uintSize"] = intOf(varInit(df, "uintSize"), ienv, "uintSize")
+	ienv["maxShift"] = intOf(varInit(df, "maxShift"), ienv, "maxShift")
+	pf("/-- `intSize`, `uintSize`, `maxShift` evaluated for a 64-bit platform; source `%s`, `%s`, `%s` -/\n", src(varInit(ifl, "intSize")), src(varInit(df, "uintSize")), src(varInit(df, "maxShift")))
+	pf("def intSize : Nat := %s\ndef uintSize : Nat := %s\ndef maxShift : Nat := %s\n", ienv["intSize"], ienv["uintSize"], ienv["maxShift"])
+
+	// ---- optimize
+	pf("def optimize : Bool := %s\n", src(varInit(af, "optimize")))
+	optUses := 0
+	ast.Inspect(a64.Body, func(n ast.Node) bool {
+		if x, ok := n.(*ast.IfStmt); ok && strings.Contains(src(x.Cond), "optimize") {
+			optUses++
+		}
+		return true
+	})
+	pf("/-- number of `if optimize && …` guards in atof64 -/\ndef optimizeGuards : Nat := %d\n", optUses)
+
+	// ---- special
+	var specials []string
+	var sw *ast.SwitchStmt
+	ast.Inspect(sp.Body, func(n ast.Node) bool {
+		if x, ok := n.(*ast.SwitchStmt); ok && sw == nil {
+			sw = x
+		}
+		return true
+	})
+	if sw == nil || src(sw.Tag) != "s[0]" {
+		die("special: switch s[0] not found")
+	}
+	for _, c := range sw.Body.List {
+		cc := c.(*ast.CaseClause)
+		if len(cc.List) == 0 {
+			continue
+		}
+		var firsts []string
+		for _, l := range cc.List {
+			firsts = append(firsts, intOf(l, nil, "special case").String())
+		}
+		if len(cc.Body) != 1 {
+			die("special: case body")
+		}
+		ifs, ok := cc.Body[0].(*ast.IfStmt)
+		if !ok {
+			die("special: case body")
+		}
+		var spell []string
+		var walk func(e ast.Expr)
+		walk = func(e ast.Expr) {
+			e = unparen(e)
+			if be, ok := e.(*ast.BinaryExpr); ok && be.Op == token.LOR {
+				walk(be.X)
+				walk(be.Y)
+				return
+			}
+			fun, args, ok := callOf(e)
+			if ok && fun == "equalIgnoreCase" && len(args) == 2 && isIdent(args[0], "s") {
+				if t, ok := strLit(args[1]); ok {
+					spell = append(spell, bytesOf(t))
+					return
+				}
+			}
+			die("special: condition %s", src(e))
+		}
+		walk(ifs.Cond)
+		rs, ok := ifs.Body.List[0].(*ast.ReturnStmt)
+		if !ok {
+			die("special: return")
+		}
+		val := -1
+		switch strings.Join(strings.Fields(src(rs.Results[0])), "") {
+		case "math.Inf(1)":
+			val = 0
+		case "math.Inf(-1)":
+			val = 1
+		case "math.NaN()":
+			val = 2
+		default:
+			die("special: value %s", src(rs.Results[0]))
+		}
+		specials = append(specials, fmt.Sprintf("(%s, %s, %d)", joinS(firsts), joinS(spell), val))
+	}
+	pf("/-- `special`: (first bytes of the case, spellings compared ignoring case, 0:+Inf 1:-Inf 2:NaN) -/\n")
+	pf("def specials : List (List Nat × List (List Nat) × Nat) := %s\n", joinS(specials))
+
+	// ---- readFloat
+	mm := assignedExpr(rd.Body, "maxMantDigits", token.DEFINE)
+	mmHex := assignedExpr(rd.Body, "maxMantDigits", token.ASSIGN)
+	if mm == nil || mmHex == nil {
+		die("readFloat: maxMantDigits not found")
+	}
+	pf("def maxMantDigits : Nat := %s\ndef maxMantDigitsHex : Nat := %s\n", natOf(mm, ienv, "maxMantDigits"), natOf(mmHex, ienv, "maxMantDigits hex"))
+	clampOf := func(fd *ast.FuncDecl, what string) string {
+		x := mustIf(fd.Body, what+" exponent clamp", has("e <"))
+		be, ok := unparen(x.Cond).(*ast.BinaryExpr)
+		if !ok || be.Op != token.LSS || !isIdent(be.X, "e") {
+			die("%s: exponent clamp %s", what, src(x.Cond))
+		}
+		return natOf(be.Y, ienv, what+" clamp")
+	}
+	pf("/-- `if e < clamp { e = e*10 + digit }` in readFloat and in decimal.set -/\ndef expClamp : Nat := %s\ndef expClampSet : Nat := %s\n", clampOf(rd, "readFloat"), clampOf(set, "decimal.set"))
+	var hexMul []string
+	ast.Inspect(rd.Body, func(n ast.Node) bool {
+		if x, ok := n.(*ast.IfStmt); ok && strings.Join(strings.Fields(src(x.Cond)), "") == "base==16" {
+			for _, st := range x.Body.List {
+				if as, ok := st.(*ast.AssignStmt); ok && as.Tok == token.MUL_ASSIGN {
+					hexMul = append(hexMul, fmt.Sprintf("(%s, %s)", leanStr(src(as.Lhs[0])), natOf(as.Rhs[0], ienv, "hex scale")))
+				}
+			}
+		}
+		return true
+	})
+	pf("/-- `if base == 16 { dp *= 4; ndMant *= 4 }` -/\ndef hexScale : List (String × Nat) := %s\n", joinS(hexMul))
+	// decimal buffer
+	bufLen := ""
+	ast.Inspect(df, func(n ast.Node) bool {
+		if ts, ok := n.(*ast.TypeSpec); ok && ts.Name.Name == "decimal" {
+			for _, fld := range ts.Type.(*ast.StructType).Fields.List {
+				if len(fld.Names) == 1 && fld.Names[0].Name == "d" {
+					if at, ok := fld.Type.(*ast.ArrayType); ok && at.Len != nil {
+						bufLen = natOf(at.Len, ienv, "decimal buffer")
+					}
+				}
+			}
+		}
+		return true
+	})
+	if bufLen == "" {
+		die("decimal.d array length not found")
+	}
+	pf("/-- `d [N]byte` of type decimal -/\ndef decimalBufLen : Nat := %s\n", bufLen)
+
+	// ---- powtab, floatBits
+	ptE, ok := varInit(af, "powtab").(*ast.CompositeLit)
+	if !ok {
+		die("powtab")
+	}
+	var pt []string
+	for _, el := range ptE.Elts {
+		pt = append(pt, natOf(el, ienv, "powtab"))
+	}
+	pf("def powtab : List Nat := %s\n", joinS(pt))
+	fcodes := map[string]int{"d.dp": 0, "len(powtab)": 1, "-d.dp": 2, "d.d[0]": 3, "exp": 4}
+	over := mustIf(fb.Body, "floatBits overflow exit", has("d.dp >"))
+	under := mustIf(fb.Body, "floatBits underflow exit", has("d.dp <"))
+	exitOf := func(x *ast.IfStmt, what string) (int, *big.Int) {
+		be, ok := unparen(x.Cond).(*ast.BinaryExpr)
+		if !ok || src(be.X) != "d.dp" || opN(be.Op) > 5 {
+			die("floatBits: %s %s", what, src(x.Cond))
+		}
+		return opN(be.Op), intOf(be.Y, ienv, what)
+	}
+	oop, oval := exitOf(over, "overflow exit")
+	uop, uval := exitOf(under, "underflow exit")
+	pf("/-- the \"obvious overflow/underflow\" exits `d.dp > 310`, `d.dp < -330`: (operator code, bound) -/\n")
+	pf("def overflowExit : Nat × Int := (%d, %s)\ndef underflowExit : Nat × Int := (%d, %s)\n", oop, leanInt(oval), uop, leanInt(uval))
+	var loops []*ast.ForStmt
+	for _, st := range fb.Body.List {
+		if x, ok := st.(*ast.ForStmt); ok {
+			loops = append(loops, x)
+		}
+	}
+	if len(loops) != 2 {
+		die("floatBits: %d loops", len(loops))
+	}
+	pf("/-- operand codes of the floatBits conditions: %s; 1000+n = literal n (a byte literal is its code) -/\ndef floatBitsCodes : Unit := ()\n", codeDoc(fcodes))
+	var bigShift []string
+	for i, nm := range []string{"Down", "Up"} {
+		lp := loops[i]
+		// rewrite the char literal '5' for the DNF encoder: handled through codes below
+		condSrc := strings.Join(strings.Fields(src(lp.Cond)), " ")
+		pf("/-- floatBits scaling loop %d continues: `%s` -/\n", i+1, condSrc)
+		var atoms [][]atomT
+		for _, conj := range dnfChar(lp.Cond, fcodes, "floatBits loop") {
+			atoms = append(atoms, conj)
+		}
+		pf("def scale%sCond : List (List (Bool × Nat × Nat × Nat)) := %s\n", nm, leanDNF(atoms))
+		inner := mustIf(lp.Body, "floatBits table bound", has("len(powtab)"))
+		pf("def scale%sBigCond : List (List (Bool × Nat × Nat × Nat)) := %s\n", nm, leanDNF(dnf(inner.Cond, fcodes, "floatBits table bound")))
+		as, ok := inner.Body.List[0].(*ast.AssignStmt)
+		if !ok || !isIdent(as.Lhs[0], "n") {
+			die("floatBits: big shift")
+		}
+		bigShift = append(bigShift, natOf(as.Rhs[0], ienv, "big shift"))
+	}
+	pf("/-- `n = 27` when the table has no entry (first loop, second loop) -/\ndef bigShift : List Nat := %s\n", joinS(bigShift))
+
+	// ---- float64info
+	ff := parseFile(repo, "benchfmt/internal/bytesconv/ftoa.go")
+	fi, ok := varInit(ff, "float64info").(*ast.CompositeLit)
+	if !ok || len(fi.Elts) != 3 {
+		die("float64info")
+	}
+	pf("/-- float64info = floatInfo{mantbits, expbits, bias} -/\ndef mantbits : Nat := %s\ndef expbits : Nat := %s\ndef bias : Int := %s\n",
+		natOf(fi.Elts[0], ienv, "mantbits"), natOf(fi.Elts[1], ienv, "expbits"), intOf(fi.Elts[2], ienv, "bias").String())
+
+	// ---- float64pow10, atof64exact
+	ptab, ok := varInit(af, "float64pow10").(*ast.CompositeLit)
+	if !ok {
+		die("float64pow10")
+	}
+	var p10, p10t []string
+	for _, el := range ptab.Elts {
+		v := mustNum(el, "float64pow10")
+		p10 = append(p10, v.lean())
+		p10t = append(p10t, v.text)
+	}
+	pf("def float64pow10 : List (Bool × Nat × Int) := %s\ndef float64pow10Text : List String := %s\n", joinS(p10), leanStrList(p10t))
+	ecodes := map[string]int{"exp": 0, "f": 1, "mantissa >> float64info.mantbits": 2}
+	pf("/-- operand codes of the atof64exact conditions: %s -/\ndef exactCodes : Unit := ()\n", codeDoc(ecodes))
+	var esw *ast.SwitchStmt
+	for _, st := range ex.Body.List {
+		if x, ok := st.(*ast.SwitchStmt); ok {
+			esw = x
+		}
+	}
+	if esw == nil || len(esw.Body.List) != 3 {
+		die("atof64exact: switch with 3 cases expected")
+	}
+	// case exp == 0 / case exp > 0 && exp <= A+B / case exp < 0 && exp >= -B
+	window := func(e ast.Expr, what string) (int, int, *big.Int, string) { // lower op (vs 0), upper op, bound
+		be, ok := unparen(e).(*ast.BinaryExpr)
+		if !ok || be.Op != token.LAND {
+			die("atof64exact: %s %s", what, src(e))
+		}
+		l, ok1 := unparen(be.X).(*ast.BinaryExpr)
+		r, ok2 := unparen(be.Y).(*ast.BinaryExpr)
+		if !ok1 || !ok2 || !isIdent(l.X, "exp") || !isIdent(r.X, "exp") || intOf(l.Y, ienv, what).Sign() != 0 {
+			die("atof64exact: %s %s", what, src(e))
+		}
+		return opN(l.Op), opN(r.Op), intOf(r.Y, ienv, what), src(r.Y)
+	}
+	c0, ok := unparen(esw.Body.List[0].(*ast.CaseClause).List[0]).(*ast.BinaryExpr)
+	if !ok || !isIdent(c0.X, "exp") || c0.Op != token.EQL || intOf(c0.Y, ienv, "case 0").Sign() != 0 {
+		die("atof64exact: first case %s", src(esw.Body.List[0].(*ast.CaseClause).List[0]))
+	}
+	mulCase := esw.Body.List[1].(*ast.CaseClause)
+	divCase := esw.Body.List[2].(*ast.CaseClause)
+	ml, mu, mb, mtxt := window(mulCase.List[0], "multiply window")
+	dl, du, db, _ := window(divCase.List[0], "divide window")
+	pf("/-- `case exp > 0 && exp <= %s` (multiply) and `case exp < 0 && exp >= …` (divide): (operator against 0, operator against the bound, bound) -/\n", mtxt)
+	pf("def mulWindow : Nat × Nat × Int := (%d, %d, %s)\ndef divWindow : Nat × Nat × Int := (%d, %d, %s)\n", ml, mu, leanInt(mb), dl, du, leanInt(db))
+	pre := mustIf(mulCase, "atof64exact pre-scale", has("exp >"))
+	pbe := unparen(pre.Cond).(*ast.BinaryExpr)
+	var preIdx, preSet ast.Expr
+	for _, st := range pre.Body.List {
+		as := st.(*ast.AssignStmt)
+		if isIdent(as.Lhs[0], "f") && as.Tok == token.MUL_ASSIGN {
+			preIdx = as.Rhs[0].(*ast.IndexExpr).Index
+		}
+		if isIdent(as.Lhs[0], "exp") && as.Tok == token.ASSIGN {
+			preSet = as.Rhs[0]
+		}
+	}
+	pib, ok := unparen(preIdx).(*ast.BinaryExpr)
+	if !ok || pib.Op != token.SUB || !isIdent(pib.X, "exp") || preSet == nil {
+		die("atof64exact: pre-scale body")
+	}
+	pf("/-- `if exp > a { f *= float64pow10[exp-b]; exp = c }`: (operator, a, b, c) -/\n")
+	pf("def preScale : Nat × Int × Int × Int := (%d, %s, %s, %s)\n", opN(pbe.Op), leanInt(intOf(pbe.Y, ienv, "pre-scale")), leanInt(intOf(pib.Y, ienv, "pre-scale")), leanInt(intOf(preSet, ienv, "pre-scale")))
+	big15 := mustIf(mulCase, "atof64exact magnitude test", has("f >"))
+	bb, ok := unparen(big15.Cond).(*ast.BinaryExpr)
+	if !ok || bb.Op != token.LOR {
+		die("atof64exact: magnitude test %s", src(big15.Cond))
+	}
+	b1, b2 := unparen(bb.X).(*ast.BinaryExpr), unparen(bb.Y).(*ast.BinaryExpr)
+	pf("/-- `if f > 1e15 || f < -1e15 { return }`: (operator, literal) twice -/\n")
+	pf("def exactMagnitude : List (Nat × (Bool × Nat × Int)) := [(%d, %s), (%d, %s)]\n", opN(b1.Op), mustNum(b1.Y, "magnitude").lean(), opN(b2.Op), mustNum(b2.Y, "magnitude").lean())
+	mant := mustIf(ex.Body, "atof64exact mantissa test", has("mantissa"))
+	pf("def exactMantissaCond : String := %s\n", leanStr(src(mant.Cond)))
+	finalOps := func(cc *ast.CaseClause) string {
+		rs := cc.Body[len(cc.Body)-1].(*ast.ReturnStmt)
+		return strings.Join(strings.Fields(src(rs.Results[0])), "")
+	}
+	pf("def exactFormulas : List String := %s\n", leanStrList([]string{finalOps(mulCase), finalOps(divCase)}))
+
+	// ---- leftcheats
+	lcE, ok := varInit(df, "leftcheats").(*ast.CompositeLit)
+	if !ok {
+		die("leftcheats")
+	}
+	var lc []string
+	for _, el := range lcE.Elts {
+		cl, ok := el.(*ast.CompositeLit)
+		if !ok || len(cl.Elts) != 2 {
+			die("leftcheats entry %s", src(el))
+		}
+		cut, ok := strLit(cl.Elts[1])
+		if !ok {
+			die("leftcheats entry %s", src(el))
+		}
+		lc = append(lc, fmt.Sprintf("(%s, %s)", natOf(cl.Elts[0], ienv, "leftcheats delta"), bytesOf(cut)))
+	}
+	pf("/-- `leftcheats[k]` = (delta, cutoff digits) -/\ndef leftcheats : List (Nat × List Nat) := %s\n", joinS(lc))
+
+	// ---- atoi.go
+	acodes := map[string]int{"sLen": 0, "intSize": 1, "n": 2, "cutoff": 3, "n1": 4, "maxVal": 5, "d": 6, "byte(base)": 7, "ch": 8, "un": 9, "uint64(cutoff)": 10}
+	pf("/-- operand codes of the atoi.go conditions: %s -/\ndef atoiCodes : Unit := ()\n", codeDoc(acodes))
+	fast := mustIf(at.Body, "Atoi fast path", has("sLen"))
+	emitCond("atoiFastCond", "Atoi takes the fast path (the disjunct whose intSize test holds applies)", fast.Cond, acodes)
+	emitCond("atoiDigitCond", "fast path: not a digit (after `ch -= '0'`)", mustIf(fast.Body, "Atoi digit", has("ch >")).Cond, acodes)
+	var cut10 ast.Expr
+	ast.Inspect(pu.Body, func(n ast.Node) bool {
+		if cc, ok := n.(*ast.CaseClause); ok && len(cc.List) == 1 && len(cc.Body) == 1 {
+			if v, ok := numLit(cc.List[0]); ok && v.text == "10" {
+				if as, ok := cc.Body[0].(*ast.AssignStmt); ok && isIdent(as.Lhs[0], "cutoff") {
+					cut10 = as.Rhs[0]
+				}
+			}
+		}
+		return true
+	})
+	if cut10 == nil {
+		die("ParseUint: base-10 cutoff not found")
+	}
+	pf("/-- ParseUint base 10: `cutoff = %s` -/\ndef uintCutoff10 : Nat := %s\n", src(cut10), natOf(cut10, ienv, "cutoff"))
+	mv := assignedExpr(pu.Body, "maxVal", token.DEFINE)
+	if mv == nil {
+		die("ParseUint: maxVal")
+	}
+	env64 := map[string]*big.Int{"bitSize": big.NewInt(64)}
+	pf("/-- `maxVal := %s` at bitSize 64 (uint64 arithmetic) -/\ndef uintMaxVal64 : Nat := %s\n", src(mv), natOf(mv, env64, "maxVal"))
+	emitCond("uintDigitCond", "ParseUint: digit not below the base", mustIf(pu.Body, "ParseUint digit", has("byte(base)")).Cond, acodes)
+	emitCond("uintMulOverflowCond", "ParseUint: n*base overflows", mustIf(pu.Body, "ParseUint cutoff", has("cutoff")).Cond, acodes)
+	emitCond("uintAddOverflowCond", "ParseUint: n+d overflows", mustIf(pu.Body, "ParseUint add", has("n1 <")).Cond, acodes)
+	icut := assignedExpr(pi.Body, "cutoff", token.DEFINE)
+	if icut == nil {
+		die("ParseInt: cutoff")
+	}
+	pf("/-- ParseInt: `cutoff := %s` at bitSize 64 -/\ndef intCutoff64 : Nat := %s\n", src(icut), natOf(icut, env64, "ParseInt cutoff"))
+	var icond []string
+	ast.Inspect(pi.Body, func(n ast.Node) bool {
+		if x, ok := n.(*ast.IfStmt); ok && strings.Contains(src(x.Cond), "cutoff") {
+			icond = append(icond, strings.Join(strings.Fields(src(x.Cond)), " "))
+		}
+		return true
+	})
+	pf("def intRangeConds : List String := %s\n", leanStrList(icond))
+
+	// ---- reader.go atof
+	rcodes := map[string]int{"digit": 0, "val": 1, "guard": 2}
+	g := mustIf(ratof.Body, "reader atof guard", has("val >"))
+	gb, ok := unparen(g.Cond).(*ast.BinaryExpr)
+	if !ok || !isIdent(gb.X, "val") {
+		die("reader atof: guard %s", src(g.Cond))
+	}
+	pf("/-- reader.go atof: `if %s { goto fail }`; operand codes %s -/\n", src(g.Cond), codeDoc(rcodes))
+	pf("def atofGuard : Int := %s\ndef atofGuardCond : List (List (Bool × Nat × Nat × Nat)) := [[(false, 1, %d, 2)]]\n", intOf(gb.Y, ienv, "atof guard").String(), opN(gb.Op))
+	emitCond("atofDigitCond", "reader.go atof: not a digit", mustIf(ratof.Body, "reader atof digit", has("digit")).Cond, rcodes)
+	var step string
+	ast.Inspect(ratof.Body, func(n ast.Node) bool {
+		if as, ok := n.(*ast.AssignStmt); ok && len(as.Lhs) == 1 && isIdent(as.Lhs[0], "val") && as.Tok == token.ASSIGN {
+			step = strings.Join(strings.Fields(src(as.Rhs[0])), "")
+		}
+		return true
+	})
+	pf("def atofStep : String := %s\n", leanStr(step))
+	footer("NumFacts", sp, rd, set, fb, ex, a64, pu, pi, at, ratof)
+}
+
+// dnfChar is dnf with byte literals ('5') accepted as integer literals.
+func dnfChar(e ast.Expr, codes map[string]int, what string) [][]atomT {
+	c2 := map[string]int{}
+	for k, v := range codes {
+		c2[k] = v
+	}
+	ast.Inspect(e, func(n ast.Node) bool {
+		if bl, ok := n.(*ast.BasicLit); ok && bl.Kind == token.CHAR {
+			ch, _, _, err := strconv.UnquoteChar(strings.Trim(bl.Value, "'"), 0)
+			if err == nil {
+				c2[bl.Value] = 1000 + int(ch)
+			}
+		}
+		return true
+	})
+	return dnf(e, c2, what)
+}
+
 func main() {
 	if len(os.Args) != 3 {
 		fmt.Fprintln(os.Stderr, "usage: extract <FactsName> <repo>")
@@ -2488,6 +3022,8 @@ func main() {
 		seriesFacts(os.Args[2])
 	case "DbFacts":
 		dbFacts(os.Args[2])
+	case "NumFacts":
+		numFacts(os.Args[2])
 	default:
 		fmt.Fprintln(os.Stderr, "unknown facts", os.Args[1])
 		os.Exit(2)
